@@ -60,60 +60,6 @@ theorem c19_model_no_exec (F : Facts) (hwf : WF F = true) (X : Ext T S R) (a : A
 
 /-! ### every delivery of the same spec and target prints the same thing -/
 
-inductive SpecVia where
-  | argv
-  | file (path : String)
-
-inductive TargetVia where
-  | argv
-  | file (path : String)
-  | dashArg            -- `glom SPEC -`
-  | dashFile           -- `--target-file -`
-  | piped              -- nothing given, stdin is not a tty
-
-structure Request where
-  specText : String
-  targetText : String
-  sv : SpecVia
-  tv : TargetVia
-  targetFormat : Option String
-  indent : Option Int
-  scalar : Bool
-
-def Request.argv (q : Request) : Argv :=
-  let sp := match q.sv with | .argv => q.specText | .file _ => ""
-  { posargs := (match q.tv with
-      | .argv => [sp, q.targetText]
-      | .dashArg => [sp, "-"]
-      | _ => (match q.sv with | .argv => [sp] | .file _ => []))
-    targetFile := (match q.tv with | .file p => some p | .dashFile => some "-" | _ => none)
-    targetFormat := q.targetFormat
-    specFile := (match q.sv with | .file p => some p | .argv => none)
-    specFormat := none
-    indent := q.indent
-    scalar := q.scalar }
-
-/-- standard input carries the target when it is the chosen channel, anything otherwise -/
-def Request.world (q : Request) (junk : String) (tty : Bool) : World :=
-  match q.tv with
-  | .dashArg | .dashFile => ⟨q.targetText, tty⟩
-  | .piped => ⟨q.targetText, false⟩
-  | _ => ⟨junk, tty⟩
-
-/-- the files hold the texts; file names are non-empty and not `-` -/
-def Request.FilesOk (q : Request) (X : Ext T S R) : Prop :=
-  (match q.sv with | .file p => p.isEmpty = false ∧ X.readFile p = some q.specText | .argv => True) ∧
-  (match q.tv with | .file p => p.isEmpty = false ∧ p ≠ "-" ∧ X.readFile p = some q.targetText | _ => True)
-
-theorem request_expect_texts (X : Ext T S R) (q : Request) (junk : String) (tty : Bool)
-    (hs : q.specText.isEmpty = false) (ht : q.targetText.isEmpty = false)
-    (hdash : q.targetText ≠ "-") (hfiles : q.FilesOk X) :
-    refSpecText X q.argv = some q.specText ∧
-    refTargetText X q.argv (q.world junk tty) = .text q.targetText := by
-  obtain ⟨hf1, hf2⟩ := hfiles
-  cases hsv : q.sv <;> cases htv : q.tv <;>
-    simp_all [Request.argv, Request.world, refSpecText, refTargetText, posTexts, nonEmpty, Option.filter]
-
 /-- **Output.**  For every way of delivering the spec (argument or --spec-file) and the target
     (argument, --target-file, `-`, `--target-file -`, piped standard input), every target format,
     every --indent and --scalar: if the loader accepts the target text, the spec text is a literal
